@@ -150,7 +150,7 @@ int main(int argc, char** argv)
 
     // roots
     std::vector<Function*> roots, threads;
-    Function *fInit = nullptr, *fFinal = nullptr, *fMain = nullptr;
+    Function *fInit = nullptr, *fFinal = nullptr, *fMain = nullptr, *fStuck = nullptr;
     for (Function& F : M)
     {
         if (F.isDeclaration() || !F.getName().startswith(Prefix)) continue;
@@ -160,6 +160,8 @@ int main(int argc, char** argv)
             fInit = &F;
         else if (r == "final")
             fFinal = &F;
+        else if (r == "stuck")
+            fStuck = &F;
         else if (r.startswith("thread_"))
         {
             unsigned k;
@@ -351,8 +353,8 @@ int main(int argc, char** argv)
                             if (C.resumable.count(G)) r = true;
                         }
                         else
-                            for (Function* H : C.addrTaken)
-                                if (compatibleFT(H->getFunctionType(), CB->getFunctionType()) && C.resumable.count(H)) r = true;
+                            for (Function* H : C.indirectTargets(CB))
+                                if (C.resumable.count(H)) r = true;
                         if (r) break;
                     }
                 }
@@ -378,8 +380,7 @@ int main(int argc, char** argv)
                     if (G && G->getFunctionType() != CB->getFunctionType()) G = nullptr;
                     if (G) tg.push_back(G);
                     else
-                        for (Function* H : C.addrTaken)
-                            if (compatibleFT(H->getFunctionType(), CB->getFunctionType())) tg.push_back(H);
+                        for (Function* H : C.indirectTargets(CB)) tg.push_back(H);
                     for (Function* T : tg)
                     {
                         if (!C.resumable.count(T)) continue;
@@ -508,6 +509,8 @@ int main(int argc, char** argv)
     callRoot(fInit, "verif_glue_init");
     callRoot(fFinal, "verif_glue_final");
     callRoot(fMain, "verif_glue_main");
+    callRoot(fStuck, "verif_glue_stuck");
+    glue << "const int verif_glue_has_stuck = " << (fStuck ? 1 : 0) << ";\n";
     glue << "const int verif_glue_nthreads = " << threads.size() << ";\n";
     glue << "int verif_glue_thread_step(int t)\n{\n  switch (t) {\n";
     for (size_t i = 0; i < threads.size(); ++i)
@@ -590,7 +593,7 @@ int main(int argc, char** argv)
         raw_fd_ostream mo(Meta, EC, sys::fs::OF_Text);
         mo << "{\n \"input\": \"" << jsonEsc(Input) << "\", \"mode\": \"" << Mode << "\", \"prefix\": \"" << jsonEsc(Prefix)
            << "\",\n \"threads\": " << threads.size() << ", \"ir_instructions\": " << totalInsts << ", \"visible_ops\": " << totalVisible
-           << ",\n \"roots\": [" << (fInit ? "\"init\"" : "\"-\"") << ", " << (fFinal ? "\"final\"" : "\"-\"") << ", " << (fMain ? "\"main\"" : "\"-\"") << "]"
+           << ",\n \"roots\": [" << (fInit ? "\"init\"" : "\"-\"") << ", " << (fFinal ? "\"final\"" : "\"-\"") << ", " << (fMain ? "\"main\"" : "\"-\"") << ", " << (fStuck ? "\"stuck\"" : "\"-\"") << "]"
            << ",\n \"externals\": [" << metaExt << "],\n \"stubs\": [" << metaStub << "],\n \"functions\": [\n" << metaFuncs << "\n ]\n}\n";
     }
     return 0;
